@@ -294,7 +294,7 @@ func (b *basicCommonValidator) Validate(data interface{}) (res *Result) {
 
 		expectedValue := reflect.ValueOf(data)
 		if expectedValue.IsValid() &&
-			expectedValue.Type().ConvertibleTo(actualType) &&
+			comparableAfterConversion(expectedValue.Type(), actualType) &&
 			reflect.DeepEqual(expectedValue.Convert(actualType).Interface(), enumValue) {
 			return nil
 		}
